@@ -16,7 +16,7 @@ RULE = ('valid multi-line programs (random derivations of the grammar, 1-6 state
         'token position and (b) truncating at every token boundary; plus directed cases. A case is non-trivial when the real '
         'parser raised from the parser (not the lexer) and the message was checked against the token M7 saw last; distinct = '
         'distinct source text.')
-RULE += ' Strings and comments before the error contain CR/VT/FF/FS-RS/NEL/U+2028/U+2029; one case in four goes through eval, one in four is resubmitted on a caching parser below two more blank lines (expected line + 2), one in seven is preceded by an arbitrary earlier call.'
+RULE += ' Strings and comments before the error contain CR/VT/FF/FS-RS/NEL/U+2028/U+2029; one case in four goes through eval, one in four is resubmitted on a caching parser (whose cache strips blank space from its keys) below two more blank lines (expected line + 2), one in seven is preceded by an arbitrary earlier call.'
 ASSUMPTIONS = ['the offending token is the last token the LALR(1) parser pulled from the lexer (M7)',
                'physical line = 1 + number of "\\n" characters before the token\'s first character',
                '"names the token" = the message contains the raw source slice of the token or str() of its normalised value',
@@ -36,7 +36,9 @@ def setup(ctx):
     from smartquery import SqParser
     ctx.P = SqParser()
     ctx.M7 = monitors.TokenMonitor(ctx.P)
-    ctx.PC = SqParser(parse_cache={})          # a caching parser: the same erroneous text is resubmitted with other leading blank lines
+    # a caching parser: the same erroneous text is resubmitted with other leading blank lines; its cache normalises keys (strips surrounding
+    # blank space), so the resubmitted text is the SAME key for the host's cache - and still a different text for the line numbers in the message
+    ctx.PC = SqParser(parse_cache=gram.StripKeyCache())
     ctx.M7C = monitors.TokenMonitor(ctx.PC)
 
 
